@@ -291,6 +291,7 @@ def check_roles(prop, tier, seed):
 
 
 T_MON["C20"] = ["M_Answered", "M_StillLive", "M_NoMetricPanic", "M_Validated", "M_MetricLabelsConsistent", "M_MetricLookupIsSpec"]
+C20_EXTRA_MON = ["M_WatchBulkExactlyOnce"]
 T_MODULE["C20"] = "TraceRequests.tla"
 
 
@@ -367,6 +368,13 @@ def check_requests(prop, tier, seed):
         traces += mtr
         ntr, v = validate_all(work, traces, T_MON[prop], module="TraceRequests.tla", chunks=len(traces))
         cov["traces_validated_against_impl"] = ntr
+        if not v:
+            # "... or wedge a node": a watch that has to catch up on more cached events than its result channel takes in batches of
+            # 300 (the call must come back), and watchers next to full sequencer batches
+            import fam_watch
+            wb = fam_watch.bulk_part(work, binp, cov, True)
+            n2, v = validate_all(work, wb, ["M_WatchBulkExactlyOnce"], chunks=2)
+            cov["traces_validated_against_impl"] += n2
         if v:
             violations += 1
             report_violation(prop, seed, v)
